@@ -159,6 +159,13 @@ impl<E: Engine + Debug> ParamsKZG<E> {
         let mut k = [0u8; 4];
         reader.read_exact(&mut k[..])?;
         let k = u32::from_le_bytes(k);
+        // Same bound as in `unsafe_setup`.
+        if k > E::Fr::S {
+            return Err(io::Error::new(
+                io::ErrorKind::InvalidData,
+                format!("params size value (k): {} exceeds maximum: {}", k, E::Fr::S),
+            ));
+        }
         let n = 1 << k;
 
         let (g, g_lagrange) = match format {
@@ -166,10 +173,14 @@ impl<E: Engine + Debug> ParamsKZG<E> {
                 use group::GroupEncoding;
                 let load_points_from_file_parallelly =
                     |reader: &mut R| -> io::Result<Vec<Option<E::G1>>> {
-                        let mut points_compressed =
-                            vec![<<E as Engine>::G1 as GroupEncoding>::Repr::default(); n];
-                        for points_compressed in points_compressed.iter_mut() {
-                            reader.read_exact((*points_compressed).as_mut())?;
+                        // Do not allocate `n` elements upfront: `n` is not trusted
+                        // until that many points have actually been read.
+                        let mut points_compressed = Vec::new();
+                        for _ in 0..n {
+                            let mut point_compressed =
+                                <<E as Engine>::G1 as GroupEncoding>::Repr::default();
+                            reader.read_exact(point_compressed.as_mut())?;
+                            points_compressed.push(point_compressed);
                         }
 
                         let mut points = vec![Option::<E::G1>::None; n];
